@@ -62,7 +62,7 @@ func metaClose(a, b, rel float64) bool {
 }
 
 func TestBoundedMWInvariance(t *testing.T) {
-	r := metaRng(88172645463325252)
+	r := metaRng(verifSeed(88172645463325252))
 	nfail, cases := 0, 0
 	fail := func(s string) {
 		nfail++
@@ -125,7 +125,7 @@ func TestBoundedMWInvariance(t *testing.T) {
 }
 
 func TestBoundedSampleLaws(t *testing.T) {
-	r := metaRng(1442695040888963407)
+	r := metaRng(verifSeed(1442695040888963407))
 	nfail, cases := 0, 0
 	fail := func(s string) {
 		nfail++
@@ -247,7 +247,7 @@ func TestBoundedQuantileCINesting(t *testing.T) {
 }
 
 func TestBoundedStreamHistories(t *testing.T) {
-	r := metaRng(6364136223846793005)
+	r := metaRng(verifSeed(6364136223846793005))
 	nfail, cases := 0, 0
 	fail := func(s string) {
 		nfail++
@@ -317,7 +317,7 @@ func TestBoundedStreamHistories(t *testing.T) {
 }
 
 func TestBoundedHistMonotone(t *testing.T) {
-	r := metaRng(2685821657736338717)
+	r := metaRng(verifSeed(2685821657736338717))
 	nfail, cases := 0, 0
 	fail := func(s string) {
 		nfail++
@@ -368,7 +368,7 @@ func TestBoundedHistMonotone(t *testing.T) {
 // C04: shift / scale invariance and the swap law of the t-tests, and the
 // p-value against an independent evaluation of the t distribution.
 func TestBoundedTTestLaws(t *testing.T) {
-	r := metaRng(7046029254386353131)
+	r := metaRng(verifSeed(7046029254386353131))
 	nfail, cases := 0, 0
 	fail := func(s string) {
 		nfail++
@@ -440,4 +440,16 @@ func TestBoundedTTestLaws(t *testing.T) {
 		t.Fatalf("%d failures", nfail)
 	}
 	fmt.Printf("BOUNDED-OK cases=%d\n", cases)
+}
+
+// verifSeed mixes VERIF_SEED (if set) into a generator's initial state, so that
+// different seeds explore different pseudo-random inputs; 0 keeps the default.
+func verifSeed(s uint64) uint64 {
+	if v, err := strconv.ParseUint(os.Getenv("VERIF_SEED"), 10, 64); err == nil && v != 0 {
+		s ^= v * 0x9E3779B97F4A7C15
+		if s == 0 {
+			s = 0x9E3779B97F4A7C15
+		}
+	}
+	return s
 }
